@@ -952,8 +952,21 @@ func (e *explorer) literalCase(items []object.Object, full bool) {
 		return
 	}
 	var ops []op
-	for _, k := range e.keys {
-		ops = append(ops, opK('G', k))
+	if len(items)/2 > 12 { // long literal: look up only the classes written more than once, and the probes
+		seen := map[string]int{}
+		for i := 0; i+1 < len(items); i += 2 {
+			j, _ := ref.find(items[i])
+			seen[Canon(ref.ks[j])]++
+		}
+		for _, k := range e.keys {
+			if j, ok := ref.find(k); !ok || seen[Canon(ref.ks[j])] > 1 {
+				ops = append(ops, opK('G', k))
+			}
+		}
+	} else {
+		for _, k := range e.keys {
+			ops = append(ops, opK('G', k))
+		}
 	}
 	ops = append(ops, op0('L'), op0('I'), op0('F'), op0('R'))
 	if full && len(items) > 0 {
@@ -1047,6 +1060,7 @@ func (e *explorer) literals() {
 			}
 		}
 	}
+	e.longLiterals()
 	// random literals over a small key pool (repeats of several keys, aliases 1/1.0 and 2/2.0)
 	pool := musts("I1", "F3ff0000000000000", "I2", "F4000000000000000", "S61", "N", "A[I1]", "F3ff8000000000000", "B0")
 	cnt := 150
@@ -1060,6 +1074,142 @@ func (e *explorer) literals() {
 			items = append(items, pool[c.R.Intn(len(pool))], val(j))
 		}
 		e.literalCase(items, c.R.Pct(30))
+	}
+}
+
+// longLiterals: 13..40 written pairs (well beyond the small/large threshold and beyond the sizes at which a
+// library sort is still an insertion sort), one key class written 2..4 times at various distances - the same key
+// object, or order-equal but different objects (1 / 1.0, 0.0 / -0.0) -, fillers written in increasing order or
+// scattered. The reference is the map built by successive assignment: the last written value wins, the first
+// written key object stays.
+func (e *explorer) longLiterals() {
+	c := e.c
+	I := func(n int) object.Object { return object.Integer{Value: int64(n)} }
+	sizes := []int{13, 14, 16, 20, 27, 40}
+	if c.Thorough() {
+		sizes = []int{13, 14, 15, 16, 17, 18, 20, 22, 24, 27, 30, 33, 36, 40}
+	}
+	variants := [][]object.Object{
+		{I(1)}, {I(1), Fl(1)}, {Fl(1), I(1)}, {Fl(0), Fl(negZero())}, {Fl(negZero()), I(0)}, {S("k")}, {I(25)}, {Fl(24.5)},
+	}
+	for _, n := range sizes {
+		for vi, variant := range variants {
+			if !c.Thorough() && vi >= 4 && n%2 == 1 {
+				continue
+			}
+			var pls [][]int
+			for m := 2; m <= 4; m++ {
+				pls = append(pls, placements(n, m)...)
+			}
+			pls = append(pls, []int{0, 6}, []int{0, 1}, []int{3, n - 2}, []int{n / 2, n/2 + 7}, []int{1, 6, 12}, []int{0, n / 2, n - 1})
+			for pi, pl := range pls {
+				for ord := 0; ord < 2; ord++ {
+					if !c.Thorough() && (pi+ord)%2 == 1 && pi > 4 {
+						continue
+					}
+					at := map[int]int{}
+					for i, p := range pl {
+						if p >= 0 && p < n {
+							at[p] = i
+						}
+					}
+					var items []object.Object
+					fi := 0
+					for j := 0; j < n; j++ {
+						if i, ok := at[j]; ok {
+							items = append(items, variant[i%len(variant)], I(100+j))
+							continue
+						}
+						x := 2 + fi // fillers 2,3,4,... in written order, or scattered
+						if ord == 1 {
+							x = 2 + (fi*7)%(n+1)
+							if (fi*7)%(n+1) == 0 && fi > 0 { // keep fillers distinct
+								x = 2 + n + 1 + fi
+							}
+						}
+						fi++
+						var f object.Object = I(x)
+						if x == 25 || x%11 == 0 {
+							f = S(fmt.Sprintf("s%02d", x)) // a few strings among the integers
+						}
+						items = append(items, f, I(100+j))
+					}
+					e.literalCase(items, false)
+				}
+			}
+		}
+	}
+}
+
+func negZero() float64 { z := 0.0; return -z }
+
+// replaceEqual: index assignment that REPLACES a stored value by one that is == to it but not the same value
+// (0.0 / -0.0, [1] / [1.0], {1:1} / {1.0:1} / {1:1.0}, nested), on small and large maps, at the first / middle /
+// last key: the map must hold the last value written. The canonical dump tells the two apart (it prints the
+// concrete types and the float bits), and so does Inspect for the zeros.
+func (e *explorer) replaceEqual() {
+	c := e.c
+	I := func(n int) object.Object { return object.Integer{Value: int64(n)} }
+	groups := [][]string{
+		{"F0000000000000000", "F8000000000000000"},
+		{"A[I1]", "A[F3ff0000000000000]"},
+		{"A[F0000000000000000]", "A[F8000000000000000]", "A[I0]"},
+		{"M{I1:I1}", "M{F3ff0000000000000:I1}", "M{I1:F3ff0000000000000}"},
+		{"A[A[I1],S61]", "A[A[F3ff0000000000000],S61]"},
+		{"A[M{I1:I2}]", "A[M{I1:F4000000000000000}]"},
+		{"I1", "F3ff0000000000000"}, // not == (different types): control
+	}
+	sizes := []int{1, 2, 4, 5, 6, 9}
+	for _, n := range sizes {
+		for _, pos := range []int{0, n / 2, n - 1} {
+			for _, g := range groups {
+				for a := range g {
+					for b := range g {
+						if a == b {
+							continue
+						}
+						old, nw := must(g[a]), must(g[b])
+						var items []object.Object
+						for i := 0; i < n; i++ {
+							v := I(i)
+							if i == pos {
+								v = old
+							}
+							items = append(items, I(10*(i+1)), v)
+						}
+						k := I(10 * (pos + 1))
+						t, o := opT(items), opS(k, nw)
+						e.keys = []object.Object{k}
+						cs := "MAP 0 " + t.tok + " " + o.tok
+						_, obs := e.check(0, []op{t}, o, func() string { return cs })
+						c.Case(cs, obs)
+						c.NonTrivial("replace-equal|" + cs)
+						// the same with every binding kept: copy, replace, replace back, merge the original in again
+						e.bindings([]bop{bT(items), bS(0, k, nw), bS(1, k, old), bA(1, 0), bS(3, k, nw)})
+					}
+				}
+			}
+		}
+		// two closures with the same text: only calling the stored function tells them apart
+		var parts []string
+		for i := 0; i < n; i++ {
+			parts = append(parts, fmt.Sprintf("%d:%d", 10*(i+1), i))
+		}
+		for _, first := range []string{`m["f"]=mk(1);`, `m["f"]=mk(1);m["f"]=mk(1);`} {
+			code := "func mk(n){()=>n};m={" + strings.Join(parts, ",") + "};" + first + `m["f"]=mk(2);m["f"]()`
+			st := eval.NewState()
+			st.Out = &strings.Builder{}
+			old := state
+			state = st
+			r, pan := evalSrc(code)
+			state = old
+			c.Eval()
+			if pan != "" {
+				c.Fail("index-assign-closure-panic", "PROG "+code, pan)
+			} else if Canon(r) != "I2" {
+				c.Fail("index-assign-keeps-equal-looking-closure", "PROG "+code, "calling the stored function gives "+Canon(r)+", the last one assigned returns 2")
+			}
+		}
 	}
 }
 
@@ -1572,6 +1722,8 @@ func runC11(c *Ctx) {
 	e.literals()
 	// several bindings alive at once: views, grown copies, two merges from one operand, everything re-read
 	e.bindingHistories()
+	// index assignment replacing a value by an == but different one
+	e.replaceEqual()
 	// keys: 5 (quick) or 7 (thorough) distinct key classes of mixed types
 	keys := musts("I1", "F3ff8000000000000", "S61", "N", "A[I1]")
 	probes := musts("F3ff0000000000000", "I9") // 1.0: same class as 1; 9: never stored... unless set through it
